@@ -19,7 +19,7 @@ func init() {
 		Technique: "storage-layout analysis: component kinds of every Find prefix and every Put key (constant, fixed-width, variable-length integer, caller-supplied bytes) — R-prefix rule, constant-prefix family disjointness, put/get key-term agreement; must-facts for the gates, the id length bound and the cleanup deltas",
 		Explanation: "D1 R-prefix: a Find whose prefix ends in a variable-length integer encoding while stored keys of that family continue after it also enumerates keys of other integers (bytes(1) is a prefix of bytes(257)); every scan of reputation, audit, container estimations, neofsid and the configuration maps is classified. Constant scan prefixes are family-disjoint. " +
 			"D2 put/get agreement: every getter builds its key/prefix from the same component terms as the putter (reputation storageID, audit header ID, estimation key, owner keys, config‖key); GetContainerSize accepts exactly the ids ListContainerSizes can return (length bound = prefix + container id). " +
-			"D3 gates: putContainerSize under W(key) ∧ membership of that key in the previous epoch's network map, audit.put under W(header.From) ∧ header.From ∈ Inner Ring. D4 cleanup: estimations are removed exactly when epoch − e > 3 (per node) resp. > 4 (global), with the key rebuilt by the same components as the putter. D5 neofsid.AddKey/RemoveKey act on every submitted key (loop-exhaustive rule); netmap.SetConfig, reputation.Put and audit.Put store on every normal return. D6 the global estimation cleanup examines every scanned key (scan left only on exhaustion; an iteration goes round the delete only with epoch − e ≤ 4). M: the reputation value counter continues from the stored one. R7 collect-every: in the list getters and their same-package helpers a loop driven by iterator.Next that accumulates does so in every iteration (or skips only an item already in the map it fills).",
+			"D3 gates: putContainerSize under W(key) ∧ membership of that key in the previous epoch's network map, audit.put under W(header.From) ∧ header.From ∈ Inner Ring. D4 cleanup: estimations are removed exactly when epoch − e > 3 (per node) resp. > 4 (global), with the key rebuilt by the same components as the putter. D5 neofsid.AddKey/RemoveKey act on every submitted key (loop-exhaustive rule); netmap.SetConfig, reputation.Put and audit.Put store on every normal return. D6 the global estimation cleanup examines every scanned key (scan left only on exhaustion; an iteration goes round the delete only with epoch − e ≤ 4). M: the reputation value counter continues from the stored one. R7 collect-every: in the list getters and their same-package helpers a loop driven by iterator.Next that accumulates does so in every iteration (or skips only an item already in the map it fills). R9: the per-node list of estimation epochs is read from and written back to a key naming both the container id and the node.",
 		NotCovered: "multiset equality of listings with a model over interleavings. KNOWN FINDINGS (genuine, recorded in known_findings.json): the four scans that end in the variable-length epoch encoding.",
 		Run:        runC20,
 	})
@@ -344,6 +344,32 @@ func runC20(cx *CheckCtx) {
 				okDelta = pa.holdsAt(del.In, -pa.litLtC(gap, 4)) && !pa.holdsAt(del.In, -pa.litLtC(gap, 5))
 			}
 			cx.decide(okD, "cleanup", "container.updateEstimations/key", "removes 'cnr'‖bytes(old epoch)‖cid‖ripemd160(key)[:10]: the key the putter wrote", "the per-node cleanup deletes "+old.pretty()+" which is not the key an older estimation of this node was stored under", del.Where(w))
+			// … and the list of old epochs the cleanup walks is the list of *this* container and node: the key
+			// it is read from (and written back to: `est`) names every identity component of the estimation
+			// key — the container id and the node's hash. A list shared by all containers of a node is
+			// consumed by the first container reported, the others keep their outdated estimations
+			if okD {
+				okHist, whyHist := false, "the old epoch is not an item of a stored list"
+				var histKey *Term
+				ops[1].walk(func(x *Term) bool {
+					if x.Op == "read" && histKey == nil && len(x.Args) > 0 {
+						histKey = x.Args[0]
+					}
+					return true
+				})
+				if histKey != nil {
+					okHist, whyHist = true, ""
+					for _, comp := range []*Term{cid, pub} {
+						if !histKey.contains(func(x *Term) bool { return x == comp }) {
+							okHist, whyHist = false, "the list is read from "+histKey.pretty()+", which does not name "+comp.pretty()
+						}
+					}
+					if est.Args[1] != histKey {
+						okHist, whyHist = false, "the list is read from "+histKey.pretty()+" and written back to "+est.Args[1].pretty()
+					}
+				}
+				cx.decide(okHist, "cleanup", "container.updateEstimations/history-key", "the per-node list of epochs is kept per (container, node)", "the per-node cleanup walks a list that is not the one of this container and node: "+whyHist+" — outdated estimations of another container of the same node survive their cleanup delta", del.Where(w))
+			}
 			cx.decide(okDelta, "cleanup", "container.updateEstimations/delta", "removes exactly when epoch − old > 3", "the per-node cleanup does not remove exactly the estimations older than 3 epochs", del.Where(w))
 		}
 	}
